@@ -1,3 +1,34 @@
+"""bin/check <PROP> --replay <violation file>: re-executes exactly the recorded case (history prefix
++ offending event) on the current tree, in the recorded build profile, and has TLC validate the
+newly observed events again."""
+import json
+import os
+
+import checklib
+
+
 def replay(prop, path, bins):
-    print("replay not implemented yet")
-    return 2
+    v = json.load(open(path))
+    prof = v.get("profile", "dev")
+    if prof not in bins:
+        prof = list(bins.keys())[0]
+    out = os.path.join(checklib.OUT, "rerun", os.path.basename(path).replace(".json", ".ndjson"))
+    os.makedirs(os.path.dirname(out), exist_ok=True)
+    import subprocess
+    r = subprocess.run([bins[prof], "rerun", path, "--out", out], stdout=subprocess.PIPE, stderr=subprocess.PIPE, text=True)
+    if r.returncode != 0:
+        checklib.log("TOOL-ERROR rerun failed:", r.stderr[-2000:])
+        return 2
+    res = checklib.validate_shard(out, 600)
+    if res.get("error") and not res.get("mismatches"):
+        checklib.log("TOOL-ERROR", res["error"])
+        return 2
+    if res["mismatches"]:
+        lines = checklib.read_lines(out)
+        for mm in res["mismatches"]:
+            ev = json.loads(lines[mm["l"] - 1])
+            checklib.log("  line %d: %s %s -> %s" % (mm["l"], ev.get("op"), json.dumps(ev.get("a"))[:100], ",".join(mm["c"])))
+        print("VIOLATION property=%s replay=%s" % (prop, path))
+        return 1
+    print("replay of %s: the recorded case conforms on the current tree (%s profile)" % (path, prof))
+    return 0
